@@ -119,3 +119,13 @@ def sym_eq(a, b):
         if a == b:
             return True
         return False
+
+
+def sym_pick(c, m):
+    """schedule choice: symbolic c selects one of m enabled actions (solver decision per
+    alternative)"""
+    with traced():
+        for j in range(m - 1):
+            if c == j:
+                return j
+        return m - 1          # every other value selects the last alternative (no wasted path)
